@@ -207,6 +207,30 @@ class Case:
             if conn is None:
                 return False
             conn.close()       # documented way: signals the node, which closes the socket
+        elif a.startswith("burst_close"):
+            # scale: hundreds of messages are queued on one connection while the node's main thread is between two
+            # passes (every one of them raises a "wants attention" notice), then another connection is closed the
+            # documented way - its notice stands behind all the others
+            ga = self.pick(lambda g: g.owner is not None)
+            if ga is None:
+                return False
+            gb = self.pick(lambda g: g is not ga) or ga
+            ca, cb = h.conn_of(ga.sp), h.conn_of(gb.sp)
+            if ca is None or cb is None:
+                return False
+            from diameter.message.commands import DeviceWatchdogRequest
+            k = int(a[len("burst_close"):] or 700)
+            for i in range(k):
+                m = DeviceWatchdogRequest()
+                m.origin_host = self.node.origin_host.encode()
+                m.origin_realm = self.node.realm_name.encode()
+                m.header.hop_by_hop_identifier = 0x60000000 + i
+                m.header.end_to_end_identifier = 0x60000000 + i
+                ca.add_out_msg(m)
+            h.wait_workers_idle()
+            cb.close()
+            self.run.cov["notices_raised_in_bursts"] = self.run.cov.get("notices_raised_in_bursts", 0) + k + 1
+            h.settle(max_ticks=4 * k + 400)
         elif a == "req":
             g = self.pick(lambda g: g.owner is not None)
             if g is None:
@@ -379,6 +403,10 @@ STARTS = ["dial", "no_dial", "one_ready", "two_ready", "two_ready_rev"]
 # histories around an application registered on the running node: before / after a first removal of a connection,
 # its peer connecting afterwards and leaving in each way
 DIRECTED = [
+    ("two_ready", ["in2", "cer_ok", "burst_close700"]),
+    ("one_ready", ["in3", "cer_ok", "burst_close50", "in3", "cer_ok", "burst_close1400", "gone"]),
+    ("one_ready", ["burst_close700", "in2", "cer_ok", "req"]),
+    ("two_ready_rev", ["in3", "burst_close100", "dpr"]),
     ("no_dial", ["in1", "cer_ok", "gone", "late_app", "in3", "cer_ok", "gone"]),
     ("no_dial", ["late_app", "in3", "cer_ok", "reset", "in3", "cer_ok", "dpr", "gone"]),
     ("one_ready", ["gone", "late_app", "in3", "cer_ok", "dpr", "gone"]),
@@ -407,7 +435,8 @@ def run_shard(spec):
     else:
         for _ in range(spec["n"]):
             d = rng.randrange(4, 13)
-            run.one(rng.choice(STARTS), [rng.choice(ACTIONS) for _ in range(d)])
+            run.one(rng.choice(STARTS), [rng.choice(ACTIONS) if rng.random() < 0.97 else
+                                         rng.choice(["burst_close50", "burst_close700", "burst_close1400"]) for _ in range(d)])
     return run.result()
 
 
